@@ -121,6 +121,18 @@ impl<B: StarkField, H: ElementHasher<BaseField = B>> RandomCoin for RecordingCoi
 pub struct AuxFault {
     pub col: usize,
     pub step: usize,
+    /// the error added to the cell (a small integer, possibly negative)
+    pub delta: i64,
+    /// recompute the column forward from the damaged cell by its rule, so that the only violated
+    /// requirement is the one that produced the cell (the assertion at step 0, or the transition
+    /// into `step`)
+    pub rebuild_forward: bool,
+}
+
+impl AuxFault {
+    pub fn flip(col: usize, step: usize) -> Self {
+        AuxFault { col, step, delta: 1, rebuild_forward: false }
+    }
 }
 
 /// what the prover node built for the auxiliary segment (element bytes), for the checkers
@@ -283,7 +295,25 @@ impl<B: StarkField, H: ElementHasher<BaseField = B>> GenProver<B, H> {
         let mut cols = build_aux_columns::<B, E>(&self.spec, &main, rands, &mut tail);
         if let Some(f) = self.aux_fault {
             if f.col < cols.len() && f.step < cols[f.col].len() {
-                cols[f.col][f.step] += E::ONE;
+                let d = E::from(B::from(f.delta.unsigned_abs() as u32));
+                if f.delta >= 0 {
+                    cols[f.col][f.step] += d;
+                } else {
+                    cols[f.col][f.step] -= d;
+                }
+                if f.rebuild_forward {
+                    // auxiliary rules depend on the column itself and on the main trace only
+                    let n = self.spec.n;
+                    let last_ruled = n - self.spec.exemptions;
+                    for t in f.step..n - 1 {
+                        if t >= last_ruled {
+                            break;
+                        }
+                        let main_cur: Vec<B> = (0..self.spec.main_width).map(|j| main[j][t]).collect();
+                        let aux_cur: Vec<E> = (0..cols.len()).map(|i| cols[i][t]).collect();
+                        cols[f.col][t + 1] = self.spec.aux_next_value::<B, E>(f.col, &main_cur, &aux_cur, rands);
+                    }
+                }
             }
         }
         CAPTURED.with(|c| {
